@@ -2,6 +2,7 @@ import PepperProofs.CompReg
 /-!
 # Inversion of `Comp.addStmt`: what an accepted statement did (C01)
 -/
+set_option linter.unusedSimpArgs false
 namespace Pepper.Comp
 open Pepper.Constraint
 
@@ -167,4 +168,53 @@ theorem addStmt_kinetic {s : St} {a : Nat} {low high : Option String} {ins outs 
           exact ⟨_, _, by simp [decOpt, hpl], by simp [decOpt, hph], h.1.symm, h.2.symm⟩
   · simp [addStmt, hf, bind, Except.bind, throw, throwThe, MonadExceptOf.throw] at h
 
+/-! ### `cleanConst` -/
+
+theorem cleanConst_ref {s : St} {n : String} {st : Bool} {r : List SrcItem} {cs : List CItem}
+    (h : cleanConst s (.ref n st :: r) = .ok cs) :
+    ∃ e rest, findE s.seqs n = some e ∧ cleanConst s r = .ok rest ∧
+      cs = .obj ⟨e.name, st, e.len, e.isSup⟩ (basesOfView e st) :: rest := by
+  simp only [cleanConst] at h
+  split at h
+  · simp [throw, throwThe, MonadExceptOf.throw] at h
+  · rename_i e he
+    cases hr : cleanConst s r with
+    | error x => simp [hr, bind, Except.bind] at h
+    | ok rest =>
+      simp only [hr, bind, Except.bind, pure, Except.pure, Except.ok.injEq] at h
+      exact ⟨e, rest, he, rfl, h.symm⟩
+
+theorem cleanConst_nuc {s : St} {text : List Char} {r : List SrcItem} {cs : List CItem}
+    (h : cleanConst s (.nuc text :: r) = .ok cs) :
+    ∃ rest, cleanConst s r = .ok rest ∧ cs = .nuc (parseQuoted text) :: rest := by
+  simp only [cleanConst] at h
+  cases hr : cleanConst s r with
+  | error x => simp [hr, bind, Except.bind] at h
+  | ok rest =>
+    simp only [hr, bind, Except.bind, pure, Except.pure, Except.ok.injEq] at h
+    exact ⟨rest, rfl, h.symm⟩
+
+theorem cleanConst_domains {s : St} {n : String} {st : Bool} {r : List SrcItem} {cs : List CItem}
+    (h : cleanConst s (.domains n st :: r) = .ok cs) :
+    ∃ e objs rest, findE s.seqs n = some e ∧ e.isSup = true ∧
+      (itemsOfView e st).mapM (fun (i : ItemRef) => match s.findSeq i.name with
+        | some ie => (pure (CItem.obj i (basesOfView ie i.rev)) : Except Err CItem)
+        | none => throw Err.other) = .ok objs ∧
+      cleanConst s r = .ok rest ∧ cs = objs ++ rest := by
+  simp only [cleanConst] at h
+  split at h
+  · rename_i e he
+    cases hs : e.isSup with
+    | false => simp [hs, bind, Except.bind, throw, throwThe, MonadExceptOf.throw] at h
+    | true =>
+      simp only [hs, Bool.not_true, Bool.false_eq_true, if_false, bind, Except.bind, pure, Except.pure] at h
+      split at h
+      · simp at h
+      · rename_i objs hobjs
+        cases hr : cleanConst s r with
+        | error x => simp [hr] at h
+        | ok rest =>
+          simp only [hr, Except.ok.injEq] at h
+          exact ⟨e, objs, rest, he, hs, hobjs, rfl, h.symm⟩
+  · simp [throw, throwThe, MonadExceptOf.throw] at h
 end Pepper.Comp
